@@ -41,6 +41,8 @@ def strategy(tier):
         "post": st.lists(st.sampled_from(["try", "show"]), max_size=2),
         # a fifth of the cases are interleaved at file-operation granularity too
         "file_yields": st.sampled_from([False, False, False, False, True]),
+        # operator commands bound to the end of a batch, held back between two lock holds (common.late_ops)
+        "late": C.late_ops(),
     })
 
 
@@ -68,6 +70,7 @@ def run_case(case):
         have_cluster = lambda ww: os.path.exists(os.path.join(sim.out, "submitter_groups.json"))  # noqa: E731  (Cluster.create returned)
         for k in case["user"]:
             w.user_events.append((k, have_cluster, (lambda kk: lambda ww: sim.user_cmd(_cmd(sim, kk)))(k)))
+        C.install_late_ops(sim, case.get("late"))
         sim.submit()
 
         v = []
